@@ -1119,6 +1119,10 @@ class Interp:
             self.facts.append((sp.Integer(0), u.sym))
             self.facts.append((u.sym, sp.Integer(1)))
             return u
+        if n in ("np.random.seed", "numpy.random.seed", "random.seed"):
+            # reseeding is an effect on the global generator only (reported by C14); it produces no value
+            self.rng_calls.append((n, node))
+            return None
         if n.startswith("random.") or n.startswith("np.random.") or n.startswith("numpy.random."):
             self.rng_calls.append((n, node))
             raise Unsupported("random source %s" % n)
